@@ -25,7 +25,9 @@ import (
 	"strings"
 
 	"github.com/ProtonMail/go-crypto/openpgp"
+	"github.com/ProtonMail/go-crypto/openpgp/armor"
 	"github.com/ProtonMail/go-crypto/openpgp/clearsign"
+	"github.com/ProtonMail/go-crypto/openpgp/packet"
 	"github.com/goreleaser/nfpm/v2"
 )
 
@@ -57,6 +59,28 @@ func verifiesOver(kr openpgp.EntityList, sig []byte, armored bool, cands []candR
 		}
 	}
 	return out
+}
+
+// issuerKeyID extracts the issuer key id of an OpenPGP signature (armored or binary), hex.
+func issuerKeyID(sig []byte) string {
+	var r io.Reader = bytes.NewReader(sig)
+	if bytes.HasPrefix(bytes.TrimSpace(sig), []byte("-----BEGIN")) {
+		blk, err := armor.Decode(bytes.NewReader(sig))
+		if err != nil {
+			return ""
+		}
+		r = blk.Body
+	}
+	pr := packet.NewReader(r)
+	for {
+		p, err := pr.Next()
+		if err != nil {
+			return ""
+		}
+		if s, ok := p.(*packet.Signature); ok && s.IssuerKeyId != nil {
+			return fmt.Sprintf("%016x", *s.IssuerKeyId)
+		}
+	}
 }
 
 func gpgVerify(scratch, repo string, sig, data []byte) string {
@@ -146,6 +170,10 @@ func famSign(tr *Trace, scratch string, seed int64, tier string, repo string) M 
 		add(signCase{fmtName: f, method: map[string]string{"deb": "debsign"}[f], keyKind: "callback", expectOK: true, keyName: "origin"})
 		add(signCase{fmtName: f, method: map[string]string{"deb": "debsign"}[f], keyKind: "callback-error", failKind: "callback_error", keyName: "origin"})
 	}
+	// a callback AND a key file: the callback, if set, is what signs
+	for _, f := range []string{"deb", "rpm", "apk"} {
+		add(signCase{fmtName: f, method: map[string]string{"deb": "debsign"}[f], keyKind: "callback+keyfile", expectOK: true, keyName: "origin"})
+	}
 	add(signCase{fmtName: "deb", method: "dpkg-sig", keyKind: "callback", expectOK: true})
 	add(signCase{fmtName: "deb", method: "dpkg-sig", keyKind: "callback-error", failKind: "callback_error"})
 	// invalid signature type, with a key file and with a callback
@@ -176,6 +204,16 @@ func famSign(tr *Trace, scratch string, seed int64, tier string, repo string) M 
 			c.Maintainer = sc.maintain
 		}
 		isCb := strings.HasPrefix(sc.keyKind, "callback")
+		if sc.keyKind == "callback+keyfile" {
+			switch sc.fmtName {
+			case "deb":
+				c.DebSigKey = td + "privkey_unprotected.asc"
+			case "rpm":
+				c.RpmSigKey = td + "privkey_unprotected.asc"
+			case "apk":
+				c.ApkSigKey = td + "rsa_unprotected.priv"
+			}
+		}
 		if !isCb {
 			switch sc.fmtName {
 			case "deb":
@@ -291,9 +329,12 @@ func famSign(tr *Trace, scratch string, seed int64, tier string, repo string) M 
 							ev["err"] = "decode: not a clear-signed document"
 							break
 						}
-						if _, verr := openpgp.CheckDetachedSignature(kr, bytes.NewReader(blk.Bytes), blk.ArmoredSignature.Body, nil); verr == nil {
+						var sigBody bytes.Buffer
+						io.Copy(&sigBody, blk.ArmoredSignature.Body)
+						if _, verr := openpgp.CheckDetachedSignature(kr, bytes.NewReader(blk.Bytes), bytes.NewReader(sigBody.Bytes()), nil); verr == nil {
 							ev["verifies_over"] = []any{"dpkgsig-manifest"}
 						}
+						ev["sig_keyid"] = issuerKeyID(sigBody.Bytes())
 						var man []M
 						inFiles := false
 						for _, ln := range strings.Split(string(blk.Plaintext), "\n") {
@@ -326,6 +367,7 @@ func famSign(tr *Trace, scratch string, seed int64, tier string, repo string) M 
 					} else {
 						ev["verifies_over"] = verifiesOver(kr, sm.Data, true, cands)
 						ev["gpg"] = gpgVerify(scratch, repo, sm.Data, cands[0].data)
+						ev["sig_keyid"] = issuerKeyID(sm.Data)
 					}
 				}
 			case "rpm":
@@ -341,6 +383,7 @@ func famSign(tr *Trace, scratch string, seed int64, tier string, repo string) M 
 					}
 					if s := p.Sig.bin(1002); s != nil {
 						ev["rpm_pgp_sig_over"] = verifiesOver(kr, s, false, cands)
+						ev["sig_keyid"] = issuerKeyID(s)
 						ev["gpg"] = gpgVerify(scratch, repo, s, p.HeaderAndPay)
 					}
 				}
